@@ -43,6 +43,33 @@ def entry_set(F):
     return out, missing
 
 
+def cata_extremum(F):
+    """-> (found, ok, why, loc): does CataExtremum::give replace the incumbent iff it is empty or ncmp(candidate, incumbent) == bias?"""
+    cg_ = [p_ for p_ in F.fns if 'CataExtremum' in p_ and p_.endswith('::give')]
+    if not cg_:
+        return False, False, 'CataExtremum::give missing', None
+    gb = F.body(cg_[0])
+    ncs_ = gb.calls_to('ncmp')
+    eqs_ = [c for c in gb.calls if c.target.rsplit('::', 1)[-1] in ('eq', 'ne') and 'Ordering' in (c.da + str(c.callee.get('g')))]
+    stores = [bb for bb in gb.reach for s_ in gb.stmts(bb) if s_[0] == 'a' and s_[1][0] == 1 and '*' in s_[1][1:]]
+    why = 'no ncmp call (incomparable values would not raise)'
+    if ncs_:
+        c = ncs_[0]
+        a0 = origins(gb, c.args[0])
+        a1 = origins(gb, c.args[1])
+        cand_first = a0 and all(o[0] == 'param' and o[1] == 'arg' for o in a0) and any(o[0] == 'param' and o[1] == 'self' for o in a1)
+        if not cand_first:
+            why = 'ncmp is not called as ncmp(candidate, incumbent): ties are then broken the other way round than in max(list)'
+        elif len(eqs_) != 1 or not eqs_[0].target.endswith('::eq'):
+            why = 'the result of ncmp is not compared with == against the bias'
+        else:
+            ok_t, _ = only_when(gb, eqs_[0], stores, want=True)
+            if ok_t and stores:
+                return True, True, '', gb.loc(0)
+            why = 'the incumbent is replaced on a path where ncmp(candidate, incumbent) == bias is false (ties / worse candidates replace it)'
+    return True, False, why, gb.loc(0)
+
+
 def run(F, rep, tier):
     reg = Registry(F)
     init = F.body(reg.init)
@@ -206,6 +233,14 @@ def run(F, rep, tier):
         rep.ok('R8.2', 'Extremum::run', '%d sites: candidate replaces best iff ncmp(candidate, best) == bias' % len(ncs))
     else:
         rep.viol('R8.2', 'Extremum::run|shape', 'Extremum::run no longer compares ncmp(..) == self.bias at every site (%d ncmp, %d eq)' % (len(ncs), len(eqs)), ex.loc(0))
+    # the folding spelling (`yield .. into max`): same comparison, same operand roles, same tie-breaking as Extremum::run
+    found_, ok_, why_, loc_ = cata_extremum(F)
+    if not found_:
+        rep.error('R8.2', why_)
+    elif ok_:
+        rep.ok('R8.2', 'CataExtremum::give', 'incumbent replaced iff it is empty or ncmp(candidate, incumbent) == bias (as Extremum::run)')
+    else:
+        rep.viol('R8.2', 'CataExtremum::give|shape', '`for .. yield x into max|min` no longer agrees with max|min of the list: %s' % why_, loc_)
     # cmp_nint_f64
     cf = F.anchor('nnum::cmp_nint_f64')
     cb = F.body(cf)
